@@ -41,6 +41,7 @@ class C16(Oracle):
         self.rn = rp.s.road_network
         self.rechecks = 0
         self.resteps_done = 0
+        self.hot = {}         # step -> how much the built-in generators had to decide from the state saved after it (worth stepping again)
         return ()
 
     def _recheck(self, k):
@@ -54,6 +55,16 @@ class C16(Oracle):
 
     def step(self, ctx):
         out = []
+        score = 0
+        for name, sim, _, ins in ctx.spy:
+            if ins and name in ("ChargingFleetManager", "Ranker"):
+                busy = {(v.vehicle_state.station_id, v.vehicle_state.charger_id) for v in sim.vehicles.values() if type(v.vehicle_state).__name__ == "ChargingStation"}
+                waiting = {(v.vehicle_state.station_id, v.vehicle_state.charger_id) for v in sim.vehicles.values() if type(v.vehicle_state).__name__ == "ChargeQueueing"}
+                score += 1 + 3 * bool(busy & waiting) + bool(busy)
+            elif ins:
+                score += 1
+        if score:
+            self.hot[ctx.k - 1] = score
         # the state handed in must still read the same after the step
         self.saved.append((ctx.nxt, deep_fp(ctx.nxt), ctx.k))
         if ctx.applied:
@@ -86,6 +97,15 @@ class C16(Oracle):
         # pick deterministically spread samples of end-of-step states (every other entry is a mid-step state when applied)
         picks = []
         n = len(states)
+        hot = [x for x in states if x[2] in self.hot]
+        hot = [x for i, x in enumerate(hot) if i == 0 or hot[i - 1][0] is not x[0]]
+        if hot:
+            # the states from which the built-in generators had most to compute first, ties spread by the seed
+            hot.sort(key=lambda x: (-self.hot[x[2]], (x[2] * 2654435761 + run.seed) % 1009))
+            picks += hot[:6]
+            run.probes["restepped_where_the_builtin_generators_decided"] += 1
+            if self.hot[hot[0][2]] >= 4:
+                run.probes["restepped_with_a_busy_and_queued_station_being_ranked"] += 1
         for j in range(self.resteps):
             picks.append(states[(j * 7919 + run.seed) % n])
         step_fn = rp.u.step_update
